@@ -2,6 +2,7 @@ import BSEModel.PruneFuncs
 import BSEModel.ManipOps
 import BSEModel.Validator
 import BSEGen.Api
+import BSEProofs.Lemmas.PruneValid
 /-! # C08 — every basis handed out is well-formed
 
 The closing `prune_basis` of the `get_basis` option pipeline establishes, for *any* shell list it is
@@ -131,6 +132,78 @@ theorem pruneBasis_establishes [DecidableEq ν] (val : ν → Rat) (shells out :
   obtain ⟨s, _, hp⟩ := pruneShells_members val shells out h s' hs'
   exact pruneShell_distinct_exponents val s s' hp
 
+/-! ## validity of what is handed out
+
+`ValidShell` is the declarative rule list that `Props/C18` proves equivalent to the validator model
+(`validateShell_iff`).  The three statements below are about *all* rules at once. -/
+
+open BSE.Props.C18
+
+/-- **the output of `prune_shell` satisfies every validator rule** (for a semantically well-formed, correctly tagged
+input with positive exponents); the one rule pruning cannot promise, "no duplicate contraction", is a hypothesis -/
+theorem pruneShell_output_valid (val : ν → Rat) (sh sh' : Shell ν) (hw : SemWF val sh)
+    (htagH : sh.am.foldl max 0 > 1 → (sh.ftype = "gto_spherical" ∨ sh.ftype = "gto_cartesian"))
+    (htagL : ¬ sh.am.foldl max 0 > 1 → ¬ (strInfix "spherical" sh.ftype = true ∨ strInfix "cartesian" sh.ftype = true))
+    (hpos : ∀ e ∈ sh.exps, val e > 0)
+    (hfused : sh.am.length > 1 → sh.coefs.length = sh.am.length)
+    (h : pruneShell val sh = .ok sh')
+    (hdup : sh'.am.length = 1 → (sh'.coefs.map (·.map val)).Nodup) :
+    validateShell val sh' = none :=
+  (validateShell_iff val sh').2 (pruneShell_valid val sh sh' hw htagH htagL hpos hfused h hdup)
+
+/-- **pruning a valid shell changes nothing**: the data of the store, which is validated, passes through the closing
+`prune_basis` untouched, and pruning is idempotent on valid data -/
+theorem pruneShell_identity_on_valid (val : ν → Rat) (sh : Shell ν) (hv : validateShell val sh = none) (hne : sh.coefs ≠ []) :
+    pruneShell val sh = .ok sh :=
+  pruneShell_id_of_valid val sh ((validateShell_iff val sh).1 hv) hne
+
+theorem mapE_pruneShell_id (val : ν → Rat) (shells : List (Shell ν))
+    (hv : ∀ sh ∈ shells, validateShell val sh = none ∧ sh.coefs ≠ []) : mapE (pruneShell val) shells = .ok shells := by
+  induction shells with
+  | nil => rfl
+  | cons a as ih =>
+    simp only [mapE, pruneShell_identity_on_valid val a (hv a (by simp)).1 (hv a (by simp)).2,
+      ih (fun sh hs => hv sh (by simp [hs]))]
+
+theorem dedup_id_of_nodup [DecidableEq ν] (acc l : List (Shell ν)) (h : (acc ++ l).Nodup) : dedup acc l = acc ++ l := by
+  induction l generalizing acc with
+  | nil => simp [dedup]
+  | cons a as ih =>
+    have hnot : a ∉ acc := by
+      intro ha
+      have := (List.nodup_append.1 h).2.2 a ha a (by simp)
+      exact this rfl
+    unfold dedup
+    rw [if_neg hnot, ih (acc ++ [a]) (by simpa using h)]
+    simp
+
+/-- **`prune_basis` is the identity on a valid element** (valid, pairwise different shells) -/
+theorem pruneShells_identity_on_valid [DecidableEq ν] (val : ν → Rat) (shells : List (Shell ν))
+    (hv : ∀ sh ∈ shells, validateShell val sh = none ∧ sh.coefs ≠ []) (hn : shells.Nodup) :
+    pruneShells val shells = .ok shells := by
+  unfold pruneShells
+  rw [mapE_pruneShell_id val shells hv]
+  simp only
+  rw [dedup_id_of_nodup [] shells (by simpa using hn)]
+  simp
+
+/-- **`uncontract_general` of a valid element is a valid element**: every shell satisfies every validator rule and
+no shell occurs twice — whatever the element, for every valuation of the number strings -/
+theorem uncontractGeneral_valid [DecidableEq ν] (val : ν → Rat) (shells out : List (Shell ν))
+    (hv : ∀ sh ∈ shells, validateShell val sh = none ∧ sh.coefs ≠ [])
+    (h : uncontractGeneral val shells = .ok out) :
+    validateElement val (some out) none false = none := by
+  rw [validateElement_iff]
+  refine ⟨?_, by simp⟩
+  intro ss hss
+  cases hss
+  unfold uncontractGeneral at h
+  refine ⟨?_, pruneShells_nodup val _ out h⟩
+  intro s' hs'
+  obtain ⟨s, hs, hp⟩ := pruneShells_members val _ out h s' hs'
+  exact uncontractGeneral_shell_valid val shells
+    (fun sh hsh => ⟨(validateShell_iff val sh).1 (hv sh hsh).1, (hv sh hsh).2⟩) s s' hs hp
+
 /-- operations that can leave duplicate exponents, dead primitives or duplicate shells behind -/
 def needsRepair : Op → Bool
   | .uncontractSegmented | .uncontractGeneral | .removeFree | .optimizeGeneral | .uncontractSpdf _ => true
@@ -152,5 +225,11 @@ def demoShell : Shell String :=
     coefs := [["0.5", "0.0", "0.3"], ["0.0", "0.7", "0.0"]] }
 
 example : (pruneShell numVal demoShell).toOption.map (·.exps) = some ["1.0", "2.0"] := by decide +kernel
+
+/-- the hypotheses of the validity theorems are met by a concrete general-contraction shell -/
+example : validateShell numVal BSE.Props.C18.good = none ∧ BSE.Props.C18.good.coefs ≠ [] := by
+  constructor
+  · decide +kernel
+  · simp [BSE.Props.C18.good]
 
 end BSE.Props.C08
